@@ -432,6 +432,9 @@ fn env_inputs() -> Vec<(String, String)> {
     for n in ["1,5", "1.5", "1 000", "1e3", "\u{661}\u{662}", "0x10", "1_000"] {
         v.push(("rule r {\n  let f = parse_float(t)\n  %f > 1.2\n}\nrule i {\n  let n = parse_int(t)\n  %n > 1\n}\n".to_string(), format!("{{\"t\": \"{}\"}}", n)));
     }
+    // diagnostics are output too: a reference to a rule that does not exist lists the known names
+    v.push(("rule a {\n  x == 1\n}\nrule b {\n  x == 1\n}\nrule c {\n  x == 1\n}\nrule d {\n  x == 1\n}\nrule e {\n  x == 1\n}\nrule f when nope {\n  x == 2\n}\n".to_string(), "{\"x\": 1}".to_string()));
+    v.push(("rule p1(a) {\n  %a == 1\n}\nrule p2(a) {\n  %a == 1\n}\nrule p3(a) {\n  %a == 1\n}\nrule p4(a) {\n  %a == 1\n}\nrule p5(a) {\n  %a == 1\n}\nrule d {\n  nope(x)\n}\n".to_string(), "{\"x\": 1}".to_string()));
     for (a, b) in [("a", "B"), ("\u{e4}", "z"), ("Z", "a"), ("i", "\u{131}")] {
         v.push(("rule lt {\n  a < b\n}\nrule ge {\n  a >= b\n}\nrule re {\n  a == /(?i)^[a-z\u{e4}\u{131}]$/\n}\n".to_string(), format!("{{\"a\": \"{}\", \"b\": \"{}\"}}", a, b)));
     }
@@ -540,7 +543,7 @@ fn random_case(u: &mut Choices, sz: Size) -> CaseResult {
 
 pub fn run(tier: Tier, seed: u64) -> i32 {
     let spec = EvidenceSpec {
-        rule: "Random wide programs (>=3 rules incl. one failing type block per resource type with three failing clauses, unique messages) on CloudFormation-shaped templates with >=3 resources, plus a two-case test spec. Every case is run 5 times as a fresh process of the real cfn-guard binary in each of 20 modes (validate: console -S all, -o json, -o yaml, --structured json/yaml/junit/sarif, -v, -p; test: console, json, yaml, junit; parse-tree -p / -y; rulegen; validate over the data file plus three variants of it as --structured sarif / json / junit and console) with HOME, TZ, LANG, the working directory and an extra variable changed between runs: equal exit status; structured outputs byte-identical (JUnit after masking time=\"..\"); console / plain-text outputs identical as multisets of lines; -p output split into the console part (multiset) and the JSON record (bytes). Additionally 5 in-process evaluations (run_checks verbose / non-verbose, validate --payload --structured sarif) interleaved with another case must be byte-identical. Stage 'environment': 28 fixed programs using functions and operators whose result could depend on the time zone or locale (parse_epoch on timestamps with and without offset, to_upper / to_lower on non-ASCII text, parse_float / parse_int on locale-formatted numbers, string ordering, case-insensitive regexes) run through the real binary under 6 environments (TZ as POSIX strings, LANG / LC_* / LANGUAGE, HOME): same exit status, stderr and output. Stage 'batch' (in process): a generated rule file x 2-3 documents (variants of one another) given to ONE validate --structured -o json invocation must report, as a multiset of file reports and in its exit code, exactly what the (rule file, document) pairs report when each is evaluated by an invocation of its own. Non-trivial (processes): >=3 rules and >=8 modes with multi-line output; distinct by hash of rules and data.".into(),
+        rule: "Random wide programs (>=3 rules incl. one failing type block per resource type with three failing clauses, unique messages) on CloudFormation-shaped templates with >=3 resources, plus a two-case test spec. Every case is run 5 times as a fresh process of the real cfn-guard binary in each of 20 modes (validate: console -S all, -o json, -o yaml, --structured json/yaml/junit/sarif, -v, -p; test: console, json, yaml, junit; parse-tree -p / -y; rulegen; validate over the data file plus three variants of it as --structured sarif / json / junit and console) with HOME, TZ, LANG, the working directory and an extra variable changed between runs: equal exit status; structured outputs byte-identical (JUnit after masking time=\"..\"); console / plain-text outputs identical as multisets of lines; -p output split into the console part (multiset) and the JSON record (bytes). Additionally 5 in-process evaluations (run_checks verbose / non-verbose, validate --payload --structured sarif) interleaved with another case must be byte-identical. Stage 'environment': 30 fixed programs using functions and operators whose result could depend on the time zone or locale (parse_epoch on timestamps with and without offset, to_upper / to_lower on non-ASCII text, parse_float / parse_int on locale-formatted numbers, string ordering, case-insensitive regexes, references to rules that do not exist - the diagnostic lists the known names) run through the real binary under 6 environments (TZ as POSIX strings, LANG / LC_* / LANGUAGE, HOME): same exit status, stderr and output. Stage 'batch' (in process): a generated rule file x 2-3 documents (variants of one another) given to ONE validate --structured -o json invocation must report, as a multiset of file reports and in its exit code, exactly what the (rule file, document) pairs report when each is evaluated by an invocation of its own. Non-trivial (processes): >=3 rules and >=8 modes with multi-line output; distinct by hash of rules and data.".into(),
         assumptions: vec![
             "colour-control variables (NO_COLOR) are held fixed: a documented feature of the colored crate".into(),
             "five runs miss an order leak over n>=3 entries with probability <= (1/6)^4 per case".into(),
